@@ -6,5 +6,8 @@ BagPairs(b) == {<<e, b[e]>> : e \in DOMAIN b}
 DocJson(d) == [nodes |-> d.nodes, edges |-> BagPairs(d.edges), metadata |-> d.metadata]
 EmitSerial == (hist = <<>> \/ ~PortsExist(st[1]) \/ TLCGet("distinct") % SampleK # 0)
               \/ PrintT(ToJson([hist |-> hist, doc |-> DocJson(Serialize(st[1])), foreign |-> DocJson(ForeignWrite(st[1])),
+                                orderports |-> [k \in 1..Len(Serialize(st[1]).nodes) |->
+                                     LET w == WireOp(Serialize(st[1]).nodes[k].op) IN
+                                     <<IF HasOrder(w, "out") THEN OrderOffset(w, "out") ELSE -1, IF HasOrder(w, "in") THEN OrderOffset(w, "in") ELSE -1>>],
                                 wireops |-> [t \in {"root", "a", "b", "const"} |-> WireOp(t)]]))
 =============================================================================
